@@ -15,6 +15,7 @@ import ZstdVerif.Lemmas.NCountRT
 import ZstdVerif.Lemmas.SpreadRT
 import ZstdVerif.Lemmas.DescribedTables
 import ZstdVerif.Lemmas.WeightsRT
+import ZstdVerif.Lemmas.WeightsDesc
 namespace ZstdVerif.Props.C01
 open ZstdVerif
 
@@ -338,6 +339,16 @@ theorem readStats_fse (ws : List Nat) (last log : Nat) (ok : WeightsOK (ws.toArr
     (hsrc : src.extract pos (pos + wh.size) = wh) (hn : wh.size ≤ n) :
     readStats src pos n = .ok ⟨ws.toArray.push last, log, wh.size⟩ :=
   WeightsRT.readStats_fse ws last log ok hlast hlog hr1 hws norm L hF wh hwh src pos n hsrc hn
+
+open LitEnc HufRT Huf in
+/-- **readStats_fse_any_distribution**: `readStats_fse` with side conditions on the normalised counts that speak about the distribution
+only (`WeightsRT.WeightsDescOK`): the two spreading facts are theorems (Lemmas/SpreadRT.lean), not hypotheses -/
+theorem readStats_fse_any_distribution (ws : List Nat) (last log : Nat) (ok : WeightsOK (ws.toArray.push last) log) (hlast : 0 < last)
+    (hlog : log ≤ 12) (hr1 : 2 ≤ (ws ++ [last]).count 1) (hws : ws.length ≤ 255) (norm : Array Int) (L : Nat)
+    (hF : WeightsRT.WeightsDescOK norm L ws) (wh : ByteArray) (hwh : fseWeights norm L ws = some wh) (src : Bytes) (pos n : Nat)
+    (hsrc : src.extract pos (pos + wh.size) = wh) (hn : wh.size ≤ n) :
+    readStats src pos n = .ok ⟨ws.toArray.push last, log, wh.size⟩ :=
+  WeightsRT.readStats_fse ws last log ok hlast hlog hr1 hws norm L (WeightsRT.weightsFseOK_of_distribution hF) wh hwh src pos n hsrc hn
 
 open LitEnc Block LitRT HufRT HufEnc Huf HufBytes in
 /-- **literals_roundtrip_compressed_fse**: `literals_roundtrip_compressed` with the tree description the whole of HUF_writeCTable_wksp
